@@ -83,15 +83,15 @@ void ResetState() {
   gout = Out{};
 }
 
-void PrintRun(int id, const char* mode, long k, long live0, long bad0, long bal0) {
+void PrintRun(int id, const char* mode, long k, long live0, long bad0, long bal0, long copies0) {
   using namespace pg;
   std::string s;
   char b[512];
   std::snprintf(b, sizeof b,
                 "{\"id\":%d,\"mode\":\"%s\",\"k\":%ld,\"final\":[%d,%d],\"ready\":%d,\"finished\":%d,\"allocs\":%ld,"
-                "\"live\":%ld,\"bad\":%ld,\"balance\":%ld,\"submits\":%ld,\"rejected\":%ld,\"shared_bad\":%d,\"sib\":[%d,%d,%d,%d,%d,%d,%d],\"log\":[",
+                "\"live\":%ld,\"bad\":%ld,\"balance\":%ld,\"submits\":%ld,\"rejected\":%ld,\"shared_bad\":%d,\"copies\":%ld,\"sib\":[%d,%d,%d,%d,%d,%d,%d],\"log\":[",
                 id, mode, k, gout.final_state, gout.final_code, gout.ready, gout.finished, gout.allocs, gc.live - live0,
-                gc.bad - bad0, (gc.news - gc.deletes) - bal0, g.submit_seq, g.rejected, gout.shared_bad, gout.sib_calls,
+                gc.bad - bad0, (gc.news - gc.deletes) - bal0, g.submit_seq, g.rejected, gout.shared_bad, gc.copies - copies0, gout.sib_calls,
                 gout.sib_tag, gout.sib_state, gout.sib_code, gout.sib_ready, gout.sib_fstate, gout.sib_fcode);
   s += b;
   for (int i = 0; i < g.nlog; ++i) {
@@ -114,9 +114,9 @@ void RunVariant(const pg::ProgEntry& p, const char* mode, long k) {
   char b[96];
   int n = std::snprintf(b, sizeof b, "START %d %s %ld\n", p.id, mode, k);
   (void)!write(1, b, static_cast<std::size_t>(n));
-  long live0 = gc.live, bad0 = gc.bad, bal0 = gc.news - gc.deletes;
+  long live0 = gc.live, bad0 = gc.bad, bal0 = gc.news - gc.deletes, copies0 = gc.copies;
   p.fn();
-  PrintRun(p.id, mode, k, live0, bad0, bal0);
+  PrintRun(p.id, mode, k, live0, bad0, bal0, copies0);
 }
 
 }  // namespace
